@@ -995,4 +995,4 @@ impl<T> Builder<T> {
 
 #[cfg(kani)]
 #[path = "/verif/kani/builder.rs"]
-mod verif_kani;
+pub(crate) mod verif_kani;
